@@ -23,6 +23,8 @@ LoadCmds == {"lib_load", "lib_load_ctx", "lib_load_ctx_engine_first"}
 StmtCmds == {"lib_bulk_update", "lib_execute_update"}
 EndTxn == {"lib_rollback", "lib_close", "lib_load", "lib_load_ctx", "lib_load_ctx_engine_first"}
 \* is a statement-level write still open after step i of the command sequence cmds?
+\* is the library session open after step i?  (a genome file in WAL journal mode has -wal / -shm companions while a connection is open)
+SessionOpen(cmds, i) == \E j \in 1..i : cmds[j] \in LoadCmds /\ \A m \in (j + 1)..i : cmds[m] # "lib_close"
 StmtOpen(cmds, i) == \E j \in 1..i : cmds[j] \in StmtCmds /\ \A m \in (j + 1)..i : cmds[m] \notin EndTxn
 Cmds == CliCmds \cup LibCmds
 
